@@ -11,7 +11,17 @@ Three families of cases:
 
 The neighbour sets of the sharing graph are Python `set`s of strings; their iteration order is captured from the very
 objects the code passes to `graph_has_cycle` (in-process wrapper) and handed to the model (`setorder`).
-Values are compared as exact `Fraction(float)`; generators only use dyadic weights and code lists of power-of-two length.
+Values are compared as exact `Fraction(float)` in the dyadic families (weights k/8, code lists of power-of-two length:
+float arithmetic is exact there). In the decimal families (`case["exact"] == False`: weights such as 0.4 / 0.05, code lists
+of any length, shipped scenarios with their own weights) the model is given the exact rational value of every double the
+code holds, computes in exact arithmetic, and the implementation's floats must lie within a forward rounding-error bound
+that `StepCheck` accumulates from the values the real components returned (unit round-off 2^-53 per operation).
+
+`StepCheck` is also the property's own oracle on the implementation (independent of Lean): with `calculate` of every
+registered component class tapped in-process, after every step it checks that each shared-reward component returned the
+other agent's reward OF THIS STEP, that `current_reward` is the weighted sum (configured weights x returned values), that
+`total_reward` grew by exactly that, and that the newest history item carries it. The sharing graph handed to
+`graph_has_cycle` is compared with the shares the configuration declares (`declared_graph`).
 """
 from __future__ import annotations
 
@@ -25,8 +35,13 @@ NODES = ["pc1", "pc2", "srv"]
 SERVICES = ["web-server", "dns-server"]
 FOLDERS = ["database", "root"]
 FILES = ["database.db", "x.txt"]
-WEIGHTS = ["1", "1/2", "1/4", "3/4", "-1", "-1/2", "2", "0", "3/2", "1/8", "-3/4", "5/4"]
+WEIGHTS = ["1", "1/2", "1/4", "3/4", "-1", "-1/2", "2", "0", "3/2", "1/8", "-3/4", "5/4", "0", "-2", None]  # None = key omitted
 PENALTIES = ["-1", "0", "1/4", "-3/4", "1/8", "1", "-1/2"]
+# decimal literals as scenario authors write them (the shipped files use 0.4, 0.05, 0.25, 0.34, 0.33, ...)
+DEC_WEIGHTS = ["0.4", "0.05", "0.1", "0.3", "0.7", "0.33", "0.34", "-0.2", "1.1", "0.6", "0.001", "2.5", "0", "-0.45", "0.15", "1", None]
+DEC_PENALTIES = ["-0.1", "0", "0.3", "-0.75", "0.2", "1", "-0.45", "-1"]
+CODE_LISTS_ODD = [[200, 404, 404], [200, 200, 404], [404, 200, 500], [200, 404, 404, 500, 200], [404] * 3, [200] * 6 + [404],
+                  [200, 404, 500, 500, 500, 500], [200, 200, 200, 404, 404, 404, 404], [404, 500, 200, 200, 200, 200, 200, 200, 200]]
 CODE_LISTS = [[], [200], [404], [500], [200, 404], [200, 200], [404, 404], [404, 500], [200, 200, 404, 404],
               [200, 404, 404, 404], [200, 500, 500, 500], [404, 404, 404, 404], [200, 302]]
 OUTCOMES = ["P", "200", "404", "X", "500"]
@@ -47,10 +62,20 @@ def fl(x: float) -> str:
     return show(Fraction(x))
 
 
+def dbl(sv: str) -> float:
+    """the double the code holds for a configured literal"""
+    return float(frac(sv))
+
+
+def tok(sv: Optional[str]) -> str:
+    """exact rational of that double, for the model (`default` = weight key omitted)"""
+    return "default" if sv is None else show(Fraction(dbl(sv)))
+
+
 # ------------------------------------------------------------------------------------------ generation
-def gen_comp(rng: Rng, kinds: List[str]) -> dict:
+def gen_comp(rng: Rng, kinds: List[str], decimal: bool = False) -> dict:
     k = rng.choice(kinds)
-    c: Dict[str, Any] = {"kind": k, "weight": rng.choice(WEIGHTS)}
+    c: Dict[str, Any] = {"kind": k, "weight": rng.choice(DEC_WEIGHTS if decimal else WEIGHTS)}
     if k == "file":
         c.update(node=rng.choice(NODES), folder=rng.choice(FOLDERS), file=rng.choice(FILES))
     elif k == "web404":
@@ -58,7 +83,8 @@ def gen_comp(rng: Rng, kinds: List[str]) -> dict:
     elif k in ("webpage", "greendb"):
         c.update(node=rng.choice(NODES), sticky=rng.chance(1, 2))
     elif k == "actionpenalty":
-        c.update(ap=rng.choice(PENALTIES), dn=rng.choice(PENALTIES))
+        pen = DEC_PENALTIES if decimal else PENALTIES
+        c.update(ap=rng.choice(pen), dn=rng.choice(pen))
     return c
 
 
@@ -89,8 +115,9 @@ def gen_item(rng: Rng) -> dict:
     return {"action": action, "request": req, "status": status}
 
 
-def gen_state(rng: Rng, prev: Optional[dict]) -> dict:
+def gen_state(rng: Rng, prev: Optional[dict], decimal: bool = False) -> dict:
     """Synthetic post-step state: which file/service/browser paths exist and what they hold."""
+    code_lists = CODE_LISTS + CODE_LISTS_ODD * 2 if decimal else CODE_LISTS
     st: Dict[str, Any] = {"files": [], "services": [], "browsers": []}
     for n in NODES:
         for fo in FOLDERS:
@@ -99,7 +126,7 @@ def gen_state(rng: Rng, prev: Optional[dict]) -> dict:
                     st["files"].append([n, fo, fi, rng.choice([0, 1, 1, 2, 2, 3, 4])])
         for sv in SERVICES:
             if rng.chance(4, 5):
-                codes = rng.choice(CODE_LISTS) if rng.chance(1, 2) else []
+                codes = rng.choice(code_lists) if rng.chance(1, 2) else []
                 form = rng.choice(["list", "missing", "none"]) if not codes else "list"
                 st["services"].append([n, sv, codes, form])
         if rng.chance(5, 6):
@@ -116,20 +143,23 @@ def gen_state(rng: Rng, prev: Optional[dict]) -> dict:
 
 
 def gen_game_case(rng: Rng, n_agents: int, arcs: List[Tuple[int, int]], order: Optional[List[int]] = None,
-                  n_steps: int = 2, rich: bool = False, names: Optional[List[str]] = None) -> dict:
-    """Agents a0..; `arcs` (u, v) = u shares v's reward; `order` = declaration order (permutation of indices)."""
+                  n_steps: int = 2, rich: bool = False, names: Optional[List[str]] = None, decimal: bool = False) -> dict:
+    """Agents a0..; `arcs` (u, v) = u shares v's reward (an arc listed twice = two shared-reward components naming the
+    same agent); `order` = declaration order (permutation of indices); `decimal` = non-dyadic literals (tolerant compare)."""
     names = names or [f"a{i}" for i in range(n_agents)]
     agents = []
+    wts = DEC_WEIGHTS if decimal else WEIGHTS
+    pen = DEC_PENALTIES if decimal else PENALTIES
     for i in range(n_agents):
         comps: List[dict] = []
-        shared = [{"kind": "shared", "weight": rng.choice(WEIGHTS), "agent": names[v] if v < len(names) else f"ghost{v}"}
+        shared = [{"kind": "shared", "weight": rng.choice(wts), "agent": names[v] if v < len(names) else f"ghost{v}"}
                   for (u, v) in arcs if u == i]
         if rich:
-            others = [gen_comp(rng, ["dummy", "file", "web404", "webpage", "greendb", "actionpenalty", "web404", "webpage", "greendb"])
-                      for _ in range(rng.below(5))]
+            others = [gen_comp(rng, ["dummy", "file", "web404", "webpage", "greendb", "actionpenalty", "web404", "webpage", "greendb"],
+                               decimal) for _ in range(rng.below(5))]
         else:
-            others = [{"kind": "actionpenalty", "weight": rng.choice(["1", "1/2", "-1/4"]), "ap": rng.choice(PENALTIES),
-                       "dn": rng.choice(PENALTIES)}]
+            others = [{"kind": "actionpenalty", "weight": rng.choice(wts[:3] if decimal else ["1", "1/2", "-1/4"]), "ap": rng.choice(pen),
+                       "dn": rng.choice(pen)}]
         comps = rng.shuffle(shared + others)
         agents.append({"ref": names[i], "comps": comps})
     if order is not None:
@@ -137,10 +167,13 @@ def gen_game_case(rng: Rng, n_agents: int, arcs: List[Tuple[int, int]], order: O
     steps = []
     prev = None
     for _ in range(n_steps):
-        st = gen_state(rng, prev) if rich else {"files": [], "services": [], "browsers": []}
+        st = gen_state(rng, prev, decimal) if rich else {"files": [], "services": [], "browsers": []}
         prev = st
         steps.append({"state": st, "items": {a["ref"]: gen_item(rng) for a in agents}})
-    return {"family": "game", "agents": agents, "steps": steps}
+    case = {"family": "game", "agents": agents, "steps": steps}
+    if decimal:
+        case["exact"] = False
+    return case
 
 
 def gen_raw_graph(rng: Rng) -> dict:
@@ -164,7 +197,7 @@ def gen_raw_graph(rng: Rng) -> dict:
 # ------------------------------------------------------------------------------------------ model side
 def comp_line(c: dict) -> str:
     k = c["kind"]
-    w = c["weight"]
+    w = tok(c["weight"])
     if k == "dummy":
         return f"comp {w} dummy"
     if k == "file":
@@ -176,7 +209,7 @@ def comp_line(c: dict) -> str:
     if k == "shared":
         return f"comp {w} shared {c['agent']}"
     if k == "actionpenalty":
-        return f"comp {w} actionpenalty {c['ap']} {c['dn']}"
+        return f"comp {w} actionpenalty {tok(c['ap'])} {tok(c['dn'])}"
     raise ValueError(k)
 
 
@@ -243,8 +276,11 @@ def comp_cfg(c: dict) -> dict:
     elif k == "shared":
         opts = {"agent_name": c["agent"]}
     elif k == "actionpenalty":
-        opts = {"action_penalty": float(frac(c["ap"])), "do_nothing_penalty": float(frac(c["dn"]))}
-    return {"type": KIND_TYPE[k], "weight": float(frac(c["weight"])), "options": opts}
+        opts = {"action_penalty": dbl(c["ap"]), "do_nothing_penalty": dbl(c["dn"])}
+    out = {"type": KIND_TYPE[k], "options": opts}
+    if c["weight"] is not None:  # None = the scenario omits the key (the schema's default applies)
+        out["weight"] = dbl(c["weight"])
+    return out
 
 
 def game_cfg(case: dict) -> dict:
@@ -321,6 +357,134 @@ class GraphTap:
         self.G.graph_has_cycle = self.orig[0]
 
 
+class CalcTap:
+    """In-process wrapper on `calculate` of every registered reward component class: records what each component object
+    returned last (`last[id(component)]`). Removed again on exit."""
+
+    def __enter__(self):
+        from primaite.game.agent.rewards import AbstractReward
+        self.last: Dict[int, Any] = {}
+        self.patched = []
+        tap = self
+        for cls in set(AbstractReward._registry.values()):
+            if "calculate" not in cls.__dict__:
+                continue
+            orig = cls.__dict__["calculate"]
+
+            def mk(orig):
+                def calculate(self_, *a, **k):
+                    v = orig(self_, *a, **k)
+                    tap.last[id(self_)] = v
+                    return v
+                return calculate
+            setattr(cls, "calculate", mk(orig))
+            self.patched.append((cls, orig))
+        return self
+
+    def __exit__(self, *a):
+        for cls, orig in self.patched:
+            setattr(cls, "calculate", orig)
+
+
+def surviving(agents: List[dict]) -> Dict[str, dict]:
+    """`game.agents[ref] = agent` for every configured agent in turn: first position, last value."""
+    out: Dict[str, dict] = {}
+    for a in agents:
+        out[a["ref"]] = a
+    return out
+
+
+def declared_graph(agents: List[dict]) -> Dict[str, List[str]]:
+    """The sharing graph the CONFIGURATION declares: agent -> names of all its shared-reward components, in order."""
+    return {ref: [c["agent"] for c in a["comps"] if c["kind"] == "shared"] for ref, a in surviving(agents).items()}
+
+
+U = Fraction(1, 2 ** 53)  # unit round-off of IEEE double, round to nearest
+
+
+def gamma(k: int) -> Fraction:
+    return k * U / (1 - k * U)
+
+
+class StepCheck:
+    """The property's oracle on the implementation, step by step (see the module docstring), plus the rounding-error
+    bounds `bounds[step][ref] = (e_current, e_total)` on |implementation float - exact weighted sum of the same doubles|."""
+
+    def __init__(self, agents: List[dict]):
+        self.desc = surviving(agents)
+        self.tot: Dict[str, Fraction] = {r: Fraction(0) for r in self.desc}
+        self.e_tot: Dict[str, Fraction] = {r: Fraction(0) for r in self.desc}
+        self.e_cur: Dict[str, Fraction] = {r: Fraction(0) for r in self.desc}
+        self.bounds: List[Dict[str, Tuple[Fraction, Fraction]]] = []
+        self.problems: Dict[str, str] = {}  # kind (text before the first colon) -> first message
+
+    def _bad(self, what: str):
+        self.problems.setdefault(what.split(":")[0], what)
+
+    def after_load(self, game):
+        for ref, ag in game.agents.items():
+            if ref in self.tot:
+                self.tot[ref] = Fraction(ag.reward_function.total_reward)
+
+    def after_step(self, game, tap: CalcTap, step_no: int):
+        import math
+        order = [r for r in game._reward_calculation_order if r in game.agents and r in self.desc]
+        order += [r for r in game.agents if r not in order and r in self.desc]
+        e_cur: Dict[str, Fraction] = {}
+        out: Dict[str, Tuple[Fraction, Fraction]] = {}
+        for ref in order:
+            rf = game.agents[ref].reward_function
+            dcomps = self.desc[ref]["comps"]
+            if len(rf.reward_components) != len(dcomps):
+                self._bad(f"components: agent {ref} has {len(rf.reward_components)} registered components, {len(dcomps)} configured")
+                continue
+            exact = Fraction(0)
+            mag = Fraction(0)
+            e_in = Fraction(0)
+            ok = True
+            for (comp, _w_impl), dc in zip(rf.reward_components, dcomps):
+                val = tap.last.get(id(comp))
+                if not isinstance(val, (int, float)) or isinstance(val, bool) or not math.isfinite(val):
+                    self._bad(f"component value: step {step_no} agent {ref} component {dc['kind']} returned {val!r}")
+                    ok = False
+                    break
+                w = Fraction(1) if dc["weight"] is None else Fraction(dbl(dc["weight"]))
+                v = Fraction(val)
+                if dc["kind"] == "shared":
+                    other = game.agents.get(dc["agent"])
+                    if other is not None and val != other.reward_function.current_reward:
+                        self._bad(f"stale shared value: step {step_no}: the shared-reward component of {ref} on {dc['agent']} returned "
+                                  f"{val!r} but {dc['agent']}'s reward of this step is {other.reward_function.current_reward!r} "
+                                  f"(evaluation order {list(game._reward_calculation_order)})")
+                    e_in += abs(w) * e_cur.get(dc["agent"], self.e_cur.get(dc["agent"], Fraction(0)))
+                else:
+                    e_in += abs(w) * gamma(1) * abs(v)  # a component does at most one rounding operation (the 404 average)
+                exact += w * v
+                mag += abs(w * v)
+            if not ok:
+                continue
+            cur = Fraction(rf.current_reward)
+            local = gamma(len(dcomps) + 1) * mag
+            if abs(cur - exact) > local:
+                self._bad(f"weighted sum: step {step_no}: current_reward of {ref} is {rf.current_reward!r} but the configured weights times "
+                          f"the values its components returned sum to {float(exact)!r}")
+            e_cur[ref] = local + e_in
+            T = Fraction(rf.total_reward)
+            want = self.tot[ref] + cur
+            if abs(T - want) > U * abs(want):
+                self._bad(f"total: step {step_no}: total_reward of {ref} went from {float(self.tot[ref])!r} to {rf.total_reward!r} "
+                          f"with a step reward of {rf.current_reward!r}")
+            self.e_tot[ref] = self.e_tot[ref] + e_cur[ref] + U * abs(want)
+            self.tot[ref] = T
+            h = game.agents[ref].history
+            if not h or h[-1].reward != rf.current_reward:
+                self._bad(f"history: step {step_no}: newest history item of {ref} does not carry the step reward")
+            out[ref] = (e_cur[ref], self.e_tot[ref])
+        self.e_cur.update(e_cur)
+        self.bounds.append(out)
+        tap.last.clear()
+
+
 def run_impl(case: dict) -> Tuple[List[str], dict]:
     """Answers of the implementation for the compared lines of `model_lines`, plus the capture the model needs."""
     if case["family"] == "env":
@@ -336,47 +500,50 @@ def run_impl(case: dict) -> Tuple[List[str], dict]:
     out: List[str] = []
     capture: Dict[str, Any] = {"setorders": []}
     game = None
-    with GraphTap() as tap:
+    check = StepCheck(case["agents"])
+    with GraphTap() as tap, CalcTap() as ctap:
         try:
             game = PrimaiteGame.from_config(game_cfg(case))
             out.append("ok order=" + ",".join(game._reward_calculation_order) + " " + show_agents(game))
+            check.after_load(game)
         except RuntimeError as e:
             out.append("raised cycle" if "cycle" in str(e) else f"raised other:RuntimeError")
         except KeyError:
             out.append("raised keyError")
         except Exception as e:  # anything else is reported verbatim and will not match the model
             out.append(f"raised other:{type(e).__name__}")
-    if tap.graphs:
-        graph = tap.graphs[0]
-        capture["graph"] = {k: list(v) for k, v in graph.items()}
-        # insertion sequence per surviving agent object = its shared-reward components in component order
-        last_by_ref = {}
-        for a in case["agents"]:
-            last_by_ref[a["ref"]] = a
-        for ref, a in last_by_ref.items():
-            ins = [c["agent"] for c in a["comps"] if c["kind"] == "shared"]
-            capture["setorders"].append((ins, list(graph[ref])))
-    for stp in case["steps"]:
-        if game is None:
-            out += ["no-game", "no-game"]
-            continue
-        try:
-            for ref, agent in game.agents.items():
-                it = stp["items"][ref]
-                agent.process_action_response(timestep=game.step_counter, action=it["action"], parameters={},
-                                              request=list(it["request"]), response=RequestResponse(status=it["status"]),
-                                              observation=None)
-            game.advance_timestep()
-            game.update_agents(state_dict(stp["state"]))
-            out.append("ok " + show_agents(game))
-            out.append(show_mem(game))
-        except KeyError:
-            out += ["raised keyError", "no-game"]
-            game = None
-        except IndexError:
-            out += ["raised indexError", "no-game"]
-            game = None
+        if tap.graphs:
+            graph = tap.graphs[0]
+            capture["graph"] = {k: list(v) for k, v in graph.items()}
+            # insertion sequence per surviving agent object = its shared-reward components in component order
+            for ref, ins in declared_graph(case["agents"]).items():
+                if ref in graph:
+                    capture["setorders"].append((ins, list(graph[ref])))
+        ctap.last.clear()
+        for k, stp in enumerate(case["steps"]):
+            if game is None:
+                out += ["no-game", "no-game"]
+                continue
+            try:
+                for ref, agent in game.agents.items():
+                    it = stp["items"][ref]
+                    agent.process_action_response(timestep=game.step_counter, action=it["action"], parameters={},
+                                                  request=list(it["request"]), response=RequestResponse(status=it["status"]),
+                                                  observation=None)
+                game.advance_timestep()
+                game.update_agents(state_dict(stp["state"]))
+                out.append("ok " + show_agents(game))
+                out.append(show_mem(game))
+                check.after_step(game, ctap, k + 1)
+            except KeyError:
+                out += ["raised keyError", "no-game"]
+                game = None
+            except IndexError:
+                out += ["raised indexError", "no-game"]
+                game = None
     capture["game"] = game
+    capture["bounds"] = check.bounds
+    capture["step_problems"] = list(check.problems.values())
     return out, capture
 
 
@@ -398,40 +565,137 @@ def has_cycle_ref(graph: Dict[str, List[str]]) -> bool:
     return any(u in reach[u] for u in nodes)
 
 
-def oracle(case: dict, impl: List[str], capture: dict) -> Optional[str]:
-    """C10's own oracle on the implementation's behaviour, independent of Lean. Returns a description of a failure."""
+def oracle_all(case: dict, impl: List[str], capture: dict) -> List[str]:
+    """C10's own oracle on the implementation's behaviour, independent of Lean: every failure found, one per kind (the
+    kind is the text before the first colon). The reference sharing graph is the one the CONFIGURATION declares (every
+    shared-reward component of every agent); the dictionary the code hands to `graph_has_cycle` / `topological_sort` must
+    be that graph."""
     if case["family"] not in ("game", "env"):
-        return None
-    graph = capture.get("graph")
-    if graph is None:
-        return None
+        return []
+    out: List[str] = []
+    agents = capture["observed"]["agents"] if case["family"] == "env" else case["agents"]
+    graph = declared_graph(agents)
+    real = capture.get("graph")
+    first = impl[0]
+    if real is None:
+        if not first.startswith("raised other"):
+            out.append("sharing graph: setup_reward_sharing never called graph_has_cycle")
+    elif list(real) != list(graph):
+        out.append(f"sharing graph: its keys {list(real)} are not the agents {list(graph)}")
+    else:
+        for u in graph:
+            if set(real[u]) != set(graph[u]) or len(set(real[u])) != len(real[u]):
+                out.append(f"sharing graph: agent {u} declares shared-reward components on {graph[u]} but the graph handed to "
+                           f"graph_has_cycle records {sorted(real[u])} for it")
+                break
     cyc = has_cycle_ref(graph)
     dangling = any(v not in graph for vs in graph.values() for v in vs)
-    first = impl[0]
     if cyc and first != "raised cycle":
-        return f"cyclic sharing graph {graph} was not rejected: {first}"
+        out.append(f"cycle accepted: cyclic sharing graph {graph} was not rejected: {first}")
     if not cyc and first == "raised cycle":
-        return f"acyclic sharing graph {graph} was rejected"
+        out.append(f"acyclic rejected: acyclic sharing graph {graph} was rejected")
     if not cyc and not dangling:
         if not first.startswith("ok order="):
-            return f"acyclic sharing graph {graph} failed to load: {first}"
-        order = first.split()[1][len("order="):].split(",")
-        order = [x for x in order if x]
-        if sorted(order) != sorted(graph):
-            return f"evaluation order {order} is not a permutation of the agents {list(graph)}"
-        for u in graph:
-            for v in graph[u]:
-                if order.index(v) >= order.index(u):
-                    return f"evaluation order {order}: {u} depends on {v} but is evaluated first"
+            out.append(f"acyclic not loaded: acyclic sharing graph {graph} failed to load: {first}")
+        else:
+            order = first.split()[1][len("order="):].split(",")
+            order = [x for x in order if x]
+            if sorted(order) != sorted(graph):
+                out.append(f"order not a permutation: evaluation order {order} is not a permutation of the agents {list(graph)}")
+            else:
+                bad = [(u, v) for u in graph for v in graph[u] if order.index(v) >= order.index(u)]
+                if bad:
+                    u, v = bad[0]
+                    out.append(f"order not dependencies-first: evaluation order {order}: {u} shares from {v} (declared shares "
+                               f"{graph[u]}) but is evaluated before it")
+    out += capture.get("step_problems") or []
     game = capture.get("game")
     if game is not None:
+        exact = capture["observed"].get("exact", True) if case["family"] == "env" else case.get("exact", True)
         for k, a in game.agents.items():
-            tot = sum((Fraction(h.reward) for h in a.history if h.reward is not None), Fraction(0))
             if any(h.reward is None for h in a.history):
-                return f"agent {k}: a history item has no reward"
-            if tot != Fraction(a.reward_function.total_reward):
-                return f"agent {k}: total_reward {a.reward_function.total_reward} != sum of step rewards {tot}"
-    return None
+                out.append(f"history: agent {k}: a history item has no reward")
+                break
+            rs = [Fraction(h.reward) for h in a.history]
+            tot = sum(rs, Fraction(0))
+            slack = Fraction(0) if exact else gamma(len(rs) + 1) * sum((abs(r) for r in rs), Fraction(0))
+            if abs(tot - Fraction(a.reward_function.total_reward)) > slack:
+                out.append(f"total is not the sum: agent {k}: total_reward {a.reward_function.total_reward} != sum of step rewards {float(tot)!r}")
+                break
+    seen = set()
+    uniq = []
+    for m in out:
+        if m.split(":")[0] not in seen:
+            seen.add(m.split(":")[0])
+            uniq.append(m)
+    return uniq
+
+
+def oracle(case: dict, impl: List[str], capture: dict) -> Optional[str]:
+    ms = oracle_all(case, impl, capture)
+    return ms[0] if ms else None
+
+
+# ------------------------------------------------------------------------------------------ comparing the two sides
+def _parse_agents(line: str) -> Optional[List[Tuple[str, List[str]]]]:
+    """`ok [order=..] a=x:y:z,b=…` or `a=m1:m2,…` → [(a, [x, y, z]), …]; None when the line is not of that form."""
+    toks = line.split()
+    if toks and toks[0] == "ok":
+        toks = toks[1:]
+    head = [t for t in toks if t.startswith("order=")]
+    toks = [t for t in toks if not t.startswith("order=")]
+    if len(toks) > 1 or (toks and "=" not in toks[0]):
+        return None
+    out = [("order", head)] if head else []
+    for part in (toks[0].split(",") if toks else []):
+        k, _, v = part.partition("=")
+        out.append((k, v.split(":")))
+    return out
+
+
+def first_diff(case: dict, impl: List[str], model: List[str], capture: dict) -> int:
+    """Index of the first answer on which implementation and model differ, -1 if none. Exact string equality for the dyadic
+    families; for `exact == False` cases numbers may differ by the accumulated rounding bound of that step
+    (`capture["bounds"]`; memories: one rounding)."""
+    if case.get("exact", True):
+        i = next((j for j, (a, b) in enumerate(zip(impl, model)) if a != b), -1)
+    else:
+        i = -1
+        bounds = capture.get("bounds") or []
+        for j, (a, b) in enumerate(zip(impl, model)):
+            if a == b:
+                continue
+            pa, pb = _parse_agents(a), _parse_agents(b)
+            if j == 0 or pa is None or pb is None or [k for k, _ in pa] != [k for k, _ in pb]:
+                i = j
+                break
+            step = (j - 1) // 2
+            is_mem = (j - 1) % 2 == 1
+            bad = False
+            for (k, va), (_k, vb) in zip(pa, pb):
+                if len(va) != len(vb):
+                    bad = True
+                    break
+                e_cur, e_tot = bounds[step].get(k, (Fraction(0), Fraction(0))) if step < len(bounds) else (Fraction(0), Fraction(0))
+                for idx, (x, y) in enumerate(zip(va, vb)):
+                    if x == y:
+                        continue
+                    if x == "_" or y == "_" or (not is_mem and idx == 2):
+                        bad = True
+                        break
+                    fx, fy = Fraction(x), Fraction(y)
+                    tol = U * max(abs(fx), abs(fy)) if is_mem else (e_cur if idx == 0 else e_tot)
+                    if abs(fx - fy) > tol:
+                        bad = True
+                        break
+                if bad:
+                    break
+            if bad:
+                i = j
+                break
+    if i < 0 and len(impl) != len(model):
+        i = min(len(impl), len(model))
+    return i
 
 
 def all_arc_sets(n: int, self_loops: bool = False):
@@ -445,8 +709,18 @@ ENV_WEIGHTS = ["1", "1/2", "1/4", "3/4", "-1/2", "2", "1/8", "3/8"]
 TYPE_KIND = {v: k for k, v in KIND_TYPE.items()}
 
 
-def gen_env_case(rng: Rng, n_steps: int) -> dict:
-    return {"family": "env", "seed": rng.below(1 << 30), "steps": [], "n_steps": n_steps, "agents": []}
+ENV_SHIPPED = ["data_manipulation", "uc7_config", "uc7_config_tap003", "action_penalty", "basic_switched_network",
+               "fixing_duration_one_item", "nodes_with_initial_files", "shared_rewards", "software_fixing_duration",
+               "test_application_install", "test_primaite_session", "data_manipulation_marl", "multi_agent_session"]
+
+
+def gen_env_case(rng: Rng, n_steps: int, source: str = "uc2", weights: str = "dyadic") -> dict:
+    """`source`: `uc2` (data_manipulation.yaml with extra components on the defender), `shipped:<stem>` (any single-file
+    scenario of the package or of the test-suite's assets), `gen:<family>:<size>` (harness/gen/scenario.py).
+    `weights`: `dyadic` = every weight replaced by a random dyadic one (exact comparison), `asis` = the scenario's own
+    weights, e.g. 0.4 / 0.05 / 0.34 (comparison within the rounding bound)."""
+    return {"family": "env", "seed": rng.below(1 << 30), "steps": [], "n_steps": n_steps, "agents": [], "source": source,
+            "weights": weights}
 
 
 def _tok(x) -> str:
@@ -456,35 +730,69 @@ def _tok(x) -> str:
     return s or "_"
 
 
+STICKY_TYPES = ("web-server-404-penalty", "webpage-unavailable-penalty", "green-admin-database-unreachable-penalty")
+
+
 def _env_cfg(case: dict):
-    """UC2 (`data_manipulation.yaml`) with dyadic weights, random sticky flags, extra components on the defender and a
-    shuffled agent declaration order. Returns (config, agents description as in the `game` family)."""
+    """The scenario of an env case: declaration order shuffled, sticky flags randomised, weights per `case["weights"]`.
+    Returns (config, agents description as in the `game` family)."""
     import yaml
+    from harness.lib import scen
     from harness.lib.core import SRC
     rng = Rng(case["seed"])
-    cfg = yaml.safe_load((SRC / "config" / "_package_data" / "data_manipulation.yaml").read_text())
+    src = case.get("source", "uc2")
+    dyadic = case.get("weights", "dyadic") == "dyadic"
+    if src == "uc2":
+        cfg = yaml.safe_load((SRC / "config" / "_package_data" / "data_manipulation.yaml").read_text())
+    elif src.startswith("shipped:"):
+        cfg = scen.load_cfg(scen.shipped()[src.split(":", 1)[1]])
+    elif src.startswith("gen:"):
+        from harness.gen.scenario import gen_scenario
+        _g, fam, size = src.split(":")
+        cfg = gen_scenario(Rng(case["seed"] ^ 0x5DEECE66D), size=int(size), family=fam)
+    else:
+        raise ValueError(src)
     cfg["io_settings"] = {"save_logs": False, "save_agent_actions": False, "save_step_metadata": False, "save_pcap_logs": False,
                           "save_sys_logs": False, "save_agent_logs": False}
     for a in cfg["agents"]:
         rf = a.setdefault("reward_function", {}).setdefault("reward_components", [])
-        if a["ref"] == "defender":
+        if not isinstance(rf, list):
+            rf = a["reward_function"]["reward_components"] = list(rf)
+        if src == "uc2" and a["ref"] == "defender":
             rf.append({"type": "web-server-404-penalty", "weight": 1.0,
                        "options": {"node_hostname": "web_server", "service_name": "web-server"}})
             rf.append({"type": "action-penalty", "weight": 1.0, "options": {"action_penalty": -0.25, "do_nothing_penalty": 0.125}})
             rf.append({"type": "webpage-unavailable-penalty", "weight": 1.0, "options": {"node_hostname": "client_1"}})
             rf[:] = rng.shuffle(rf)
+        elif src != "uc2" and a.get("type") == "proxy-agent" and rng.chance(1, 2):
+            rf.append({"type": "action-penalty", "weight": 1.0, "options": {"action_penalty": -0.25, "do_nothing_penalty": 0.125}})
+            rf[:] = rng.shuffle(rf)
         for c in rf:
-            c["weight"] = float(frac(rng.choice(ENV_WEIGHTS)))
-            if c["type"] in ("web-server-404-penalty", "webpage-unavailable-penalty", "green-admin-database-unreachable-penalty"):
-                c.setdefault("options", {})["sticky"] = rng.chance(1, 2)
+            if dyadic:
+                c["weight"] = float(frac(rng.choice(ENV_WEIGHTS)))
+                if rng.chance(1, 10):
+                    del c["weight"]  # key omitted: the schema's default
+            if c["type"] in STICKY_TYPES:
+                if c.get("options") is None:
+                    c["options"] = {}
+                c["options"]["sticky"] = rng.chance(1, 2)
+    early = rng.chance(2, 3)
+    for a in cfg["agents"]:
+        # scripted attackers that wait 25 steps leave the database file GOOD for most of a short run: start some of them early
+        st = a.get("agent_settings")
+        if early and a.get("type") == "red-database-corrupting-agent" and isinstance(st, dict) and "start_step" in st:
+            st["start_step"], st["frequency"], st["variance"] = rng.range(2, 8), rng.range(3, 8), rng.range(0, 1)
     cfg["agents"] = rng.shuffle(cfg["agents"])
     agents = []
+    rat = lambda x: show(Fraction(float(x)))  # noqa: E731
     for a in cfg["agents"]:
         comps = []
         for c in a.get("reward_function", {}).get("reward_components", []):
-            o = c.get("options", {})
+            o = c.get("options") or {}
+            if c["type"] not in TYPE_KIND:
+                raise ValueError(f"reward component type {c['type']} is not modelled")
             k = TYPE_KIND[c["type"]]
-            d = {"kind": k, "weight": show(Fraction(c.get("weight", 1.0)))}
+            d = {"kind": k, "weight": rat(c["weight"]) if "weight" in c else None}
             if k == "file":
                 d.update(node=o["node_hostname"], folder=o["folder_name"], file=o["file_name"])
             elif k == "web404":
@@ -494,7 +802,7 @@ def _env_cfg(case: dict):
             elif k == "shared":
                 d.update(agent=o["agent_name"])
             elif k == "actionpenalty":
-                d.update(ap=show(Fraction(o.get("action_penalty", -1.0))), dn=show(Fraction(o.get("do_nothing_penalty", 0.0))))
+                d.update(ap=rat(o.get("action_penalty", -1.0)), dn=rat(o.get("do_nothing_penalty", 0.0)))
             comps.append(d)
         agents.append({"ref": a["ref"], "comps": comps})
     return cfg, agents
@@ -546,6 +854,13 @@ def view_of_state(state: dict, agents: List[dict]) -> dict:
     return st
 
 
+def _dyadic(sv: Optional[str]) -> bool:
+    if sv is None:
+        return True
+    f = frac(sv)
+    return f.denominator & (f.denominator - 1) == 0 and f.denominator <= 64 and abs(f.numerator) <= 1024
+
+
 def run_env(case: dict) -> Tuple[List[str], dict]:
     import random
     import shutil
@@ -573,35 +888,59 @@ def run_env(case: dict) -> Tuple[List[str], dict]:
     out: List[str] = []
     steps = []
     capture: Dict[str, Any] = {"setorders": []}
+    check = StepCheck(agents)
+    n_proxies = sum(1 for a in cfg["agents"] if a.get("type") == "proxy-agent")
+    arng = Rng(case["seed"] + 17)
     try:
-        with GraphTap() as tap:
-            env = PrimaiteGymEnv(env_config=cfg)
-        game = env.game
-        graph = tap.graphs[0]
-        capture["graph"] = {k: list(v) for k, v in graph.items()}
-        for a in agents:
-            capture["setorders"].append(([c["agent"] for c in a["comps"] if c["kind"] == "shared"], list(graph[a["ref"]])))
-        out.append("ok order=" + ",".join(game._reward_calculation_order) + " " + show_agents(game))
-        env.action_space.seed(case["seed"])
-        for _ in range(case["n_steps"]):
-            n_before = len(states)
-            _obs, rew, _term, _trunc, _info = env.step(env.action_space.sample())
-            assert len(states) == n_before + 1, "update_agents must run exactly once per step"
-            if Fraction(rew) != Fraction(env.agent.reward_function.current_reward):
-                out.append("env.step returned a reward different from the agent's current_reward")
-            items = {}
-            for ref, ag in game.agents.items():
-                h = ag.history[-1]
-                items[ref] = {"action": _tok(h.action), "request": [_tok(x) for x in h.request], "status": h.response.status}
-            steps.append({"state": view_of_state(states[-1], agents), "items": items})
-            out.append("ok " + show_agents(game))
-            out.append(show_mem(game))
-        capture["game"] = game
-        env.close()
+        with GraphTap() as tap, CalcTap() as ctap:
+            env = None
+            if n_proxies == 1:
+                env = PrimaiteGymEnv(env_config=cfg)
+                game = env.game
+            else:  # several RL agents (or none): the game loop itself, every RL agent given a random action of its map
+                game = G.PrimaiteGame.from_config(cfg)
+            graph = tap.graphs[0]
+            capture["graph"] = {k: list(v) for k, v in graph.items()}
+            for ref, ins in declared_graph(agents).items():
+                if ref in graph:
+                    capture["setorders"].append((ins, list(graph[ref])))
+            out.append("ok order=" + ",".join(game._reward_calculation_order) + " " + show_agents(game))
+            check.after_load(game)
+            ctap.last.clear()
+            if env is not None:
+                env.action_space.seed(case["seed"])
+            for k in range(case["n_steps"]):
+                n_before = len(states)
+                if env is not None:
+                    _obs, rew, _term, _trunc, _info = env.step(env.action_space.sample())
+                    if Fraction(rew) != Fraction(env.agent.reward_function.current_reward):
+                        out.append("env.step returned a reward different from the agent's current_reward")
+                else:
+                    for ag in game.rl_agents.values():
+                        ag.store_action(arng.below(len(ag.action_manager.action_map)))
+                    game.step()
+                assert len(states) == n_before + 1, "update_agents must run exactly once per step"
+                items = {}
+                for ref, ag in game.agents.items():
+                    h = ag.history[-1]
+                    items[ref] = {"action": _tok(h.action), "request": [_tok(x) for x in h.request], "status": h.response.status}
+                steps.append({"state": view_of_state(states[-1], agents), "items": items})
+                out.append("ok " + show_agents(game))
+                out.append(show_mem(game))
+                check.after_step(game, ctap, k + 1)
+            capture["game"] = game
+            if env is not None:
+                env.close()
     finally:
         logging.disable(logging.NOTSET)
         G.PrimaiteGame.update_agents = orig_update
         PRIMAITE_PATHS.user_sessions_path = old_path
         shutil.rmtree(tmp, ignore_errors=True)
-    capture["observed"] = {"agents": agents, "steps": steps}
+    # exact comparison is meaningful only if every number the run met is dyadic (weights, penalties, 404 averages)
+    exact = case.get("weights", "dyadic") == "dyadic" \
+        and all(_dyadic(c.get(f)) for a in agents for c in a["comps"] for f in ("weight", "ap", "dn") if f in c) \
+        and all(len(sv[2]) in (0, 1, 2, 4, 8, 16, 32) for st in steps for sv in st["state"]["services"])
+    capture["observed"] = {"agents": agents, "steps": steps, "exact": exact}
+    capture["bounds"] = check.bounds
+    capture["step_problems"] = list(check.problems.values())
     return out, capture
